@@ -134,11 +134,15 @@ type verifSource struct {
 	data   []byte
 	pos    int
 	closes int
+	onRead func() // called on every Read (what else happens while data is being transferred)
 }
 
 func (s *verifSource) Read(p []byte) (int, error) {
 	if s.closes > 0 {
 		vnd.Unreachable("Read on a closed block reader")
+	}
+	if s.onRead != nil {
+		s.onRead()
 	}
 	if s.pos >= len(s.data) {
 		return 0, io.EOF
@@ -548,6 +552,11 @@ func verifHierIndexWrites(h *verifHier, d digest.Digest) {
 				}
 			}
 			vnd.Assert(lastCanonical >= 0 && h.klm.history[lastCanonical].loc == w.loc, "a lookup entry was written with a location other than the canonical entry's location as last read under the lock")
+			if lastCanonical >= 0 {
+				// ... and read AFTER the last rotation/quarantine: a location seen before the lock
+				// was released denotes another block (or none) once the list has moved
+				vnd.Assert(h.klm.history[lastCanonical].rot == w.rot, "a lookup entry was written with a canonical location read before the block list moved (the lock had been released in between)")
+			}
 		}
 	}
 }
@@ -620,8 +629,23 @@ func verifScenarioHierPut() {
 	if !valid {
 		src.data = []byte("zz")
 	}
+	// While the client's data is being transferred (no lock held) another request may move
+	// the block list (rotation, quarantine): at most once here.
+	h.klm.world = h.lbm
+	moved := false
+	src.onRead = func() {
+		if !moved && vnd.Choose(2) == 1 && h.lock.TryLock() {
+			moved = true
+			h.lbm.rot++
+			h.lbm.epoch++
+			h.lock.Unlock()
+		}
+	}
 	b := buffer.NewCASBufferFromReader(verifHierDigest, src, buffer.UserProvided)
 	err := h.ba.Put(ctx, verifHierDigest, b)
+	if moved {
+		vnd.Cover("put-list-moved-during-transfer")
+	}
 	vnd.Assert(src.closes == 1, "upload buffer not released exactly once")
 	verifHierIndexWrites(h, verifHierDigest)
 	for _, p := range h.lbm.puts {
